@@ -108,7 +108,7 @@ Print Assumptions C02_anticipated_error_keeps_class_and_message.
 
 Theorem C02_line_breaks_rendered : forall s,
   replace1 NL BR s = flat_map (fun c => if Z.eqb c NL then BR else [c]) s /\ ~ In NL (replace1 NL BR s).
-Proof. exact (fun s => conj (br_spec s) (br_no_newline s)). Qed.
+Proof. exact br_rendering. Qed.
 Print Assumptions C02_line_breaks_rendered.
 
 (* ---- unanticipated failures become the generic student-facing error naming the submission ---- *)
@@ -129,7 +129,7 @@ Theorem C02_generic_message_names_every_input : forall t items s, In s (map text
   infix s (generic_msg G.guard (PList t items))
   /\ generic_msg G.guard (PList t items)
      = s2z "Invalid Input: Could not check inputs '" ++ join (s2z "', '") (map text_of items) ++ s2z "'".
-Proof. exact (fun t items s H => conj (generic_names_every_input t items s H) (generic_list t items)). Qed.
+Proof. exact generic_list_full. Qed.
 Print Assumptions C02_generic_message_names_every_input.
 
 (* a check that returns is never turned into an error by the guard; only a missing attempt number can still fail *)
@@ -139,13 +139,7 @@ Theorem C02_successful_check_fails_only_for_missing_attempt : forall cfg check a
   /\ (forall e, post cfg att r = Raise e -> e = config_exc ATTEMPT_MSG)
   /\ (forall n, att = Some n -> exists r', post cfg att r = Ret r')
   /\ (cc_credit cfg = None -> exists r', post cfg att r = Ret r').
-Proof.
-  exact (fun cfg check att inp r S C =>
-           conj (call_check_returned cfg check att inp r S C)
-             (conj (fun e => post_raises_only_config cfg att r e)
-                (conj (fun n H => eq_ind_r (fun a => exists r', post cfg a r = Ret r') (post_returns cfg n r) H)
-                      (post_no_credit_returns cfg att r)))).
-Qed.
+Proof. exact call_check_returned_full. Qed.
 Print Assumptions C02_successful_check_fails_only_for_missing_attempt.
 
 (* ---- numpy floating point errors are Python exceptions process-wide; eval recasts them ---- *)
@@ -179,7 +173,7 @@ Theorem C02_function_failure_recast_student_facing : forall name e, is_exception
           /\ e' = lib_exc "CalcOverflowError" (fn_overflow_msg name))
       \/ (~ student_facing e /\ isinst e "ZeroDivisionError" = false /\ isinst e "OverflowError" = false
           /\ e' = lib_exc "FunctionEvalError" (fn_domain_msg name))).
-Proof. exact (fun name e He => conj (evalfn_student_facing name e He) (evalfn_recast_cases name e He)). Qed.
+Proof. exact evalfn_full. Qed.
 Print Assumptions C02_function_failure_recast_student_facing.
 
 Theorem C02_eval_errors_student_facing : forall (val : Type) (isnan isinf : val -> bool) (nanv : val) (allow_inf : bool)
@@ -229,13 +223,7 @@ Theorem C02_malformed_text_is_unable_to_parse : forall expr gram e,
   isinst e "ParseException" = true ->
   parse_model G.exc_table G.parse_handlers G.parse_strip G.raw_parse_steps expr gram
   = Raise (lib_exc "UnableToParse" (PARSE_PRE ++ expr ++ PARSE_POST)).
-Proof.
-  exact (fun expr gram e B Gr P =>
-           eq_trans (parse_balanced expr gram B)
-                    (eq_ind_r (fun g => match g with GOk => Ret tt | GRaise e0 => Raise (apply_handlers exc_table parse_handlers (fun _ => expr) e0) end
-                                        = Raise (lib_exc "UnableToParse" (PARSE_PRE ++ expr ++ PARSE_POST)))
-                              (f_equal Raise (parse_exception_recast expr e P)) Gr)).
-Qed.
+Proof. exact parse_malformed. Qed.
 Print Assumptions C02_malformed_text_is_unable_to_parse.
 
 Theorem C02_parse_raises_only_student_facing : forall expr gram,
@@ -286,7 +274,7 @@ Print Assumptions C02_ex_list_to_item_grader_refused.
 Example C02_ex_keyboard_interrupt_not_caught : forall inp,
   guard_exc G.exc_table G.guard false inp (mkExc (builtin_mro "KeyboardInterrupt") [])
   = mkExc (builtin_mro "KeyboardInterrupt") [].
-Proof. exact (fun inp => guard_not_exception false inp _ (fun H : is_exception (mkExc (builtin_mro "KeyboardInterrupt") []) => Bool.diff_false_true H)). Qed.
+Proof. exact keyboard_interrupt_not_caught. Qed.
 Print Assumptions C02_ex_keyboard_interrupt_not_caught.
 
 (* outside the property's quantifier (it ranges over student input): an invalid author `expect` value fails during
